@@ -102,6 +102,59 @@ def followups(acc, w1, base, case, meta, init_hash_names):
     acc.case(key=None, outcome=f"{backend} followup submitted={len(subs)} dup={len(dup)}", nontrivial=False)
 
 
+def faults2_batch(acc, batch):
+    """Sequences of two interruptions: every single fault in the first run, then every single fault in the follow-up run,
+    then the checks of `followups` on what is left (thorough tier)."""
+    for meta in batch:
+        base = base_world(meta)
+        init_hash_names = set(base.hashes or {})
+        calls = record_calls(base)
+        for idx, exe in calls:
+            for kind in ("rc1", "stderr_error", "garbage", "exception"):
+                if exe in QUERY_EXES and kind != "rc1":
+                    continue  # a failing query aborts the run before anything happens: one kind is enough as a first interruption
+                w0 = base.copy()
+                with W.Session(w0) as s:
+                    if kind == "exception":
+                        s.sim_hook = (lambda phase, i, e, argv, idx=idx: (_ for _ in ()).throw(Boom("injected")) if phase == "before" and i == idx else None)
+                    else:
+                        s.sim.s["faults"] = {str(idx): kind}
+                    s.gwf(["run"])
+                    w1 = s.snapshot()
+                w1.sim["faults"] = {}
+                w1.normalize()
+                try:
+                    calls2 = record_calls_tolerant(w1)
+                except Exception:
+                    continue
+                for idx2, exe2 in calls2:
+                    for kind2 in ("rc1", "stderr_error"):
+                        if exe2 in QUERY_EXES and kind2 == "stderr_error":
+                            continue
+                        case = dict(kind="fault2", first=[idx, exe, kind], idx=idx2, exe=exe2, fault=kind2)
+                        w1b = w1.copy()
+                        with W.Session(w1b) as s:
+                            s.sim.s["faults"] = {str(idx2): kind2}
+                            s.gwf(["run"])
+                            in_run = [e["name"] for e in s.sim.journal_submits()]
+                            w2 = s.snapshot()
+                        active_w1 = {j["name"] for j in w1.sim["jobs"].values() if j["user"] == "me" and j["state"] in simsched.ACTIVE}
+                        dup_now = sorted(set(in_run) & active_w1)
+                        if dup_now:
+                            acc.violation(sig=dict(what="the faulted run itself submitted a second job for a target whose accepted job is still pending/running", backend=meta["backend"], kind="fault2", exe=exe2, fault=kind2),
+                                          case=dict(meta=meta, **case), observed=dict(duplicated=dup_now, submitted=in_run), msg=f"[{meta}] second interruption {case}: duplicated {dup_now}")
+                        w2.sim["faults"] = {}
+                        w2.normalize()
+                        acc.case(key=json.dumps(dict(meta=meta, **case), sort_keys=True), outcome=f"fault2 {exe}/{kind} then {exe2}/{kind2}", sample=None)
+                        followups(acc, w2, base, case, meta, init_hash_names)
+
+
+def record_calls_tolerant(world):
+    with W.Session(world) as s:
+        s.gwf(["run"])
+        return [(e["idx"], e["exe"]) for e in s.sim.s["journal"] if e["op"] == "call"]
+
+
 def faults_batch(acc, batch):
     for meta in batch:
         base = base_world(meta)
@@ -258,7 +311,9 @@ def scenarios(quick):
                 if be == "slurm" and init == "inflight":
                     out.append(dict(wf=wf, backend=be, init=init, accounting=False))
     if not quick:
-        out += [dict(wf="diamond", backend=be, init="inflight", started=True) for be in ("slurm", "sge", "lsf")]
+        out += [dict(wf="diamond", backend=be, init=init, started=st) for be in ("slurm", "sge", "lsf") for init, st in (("fresh", False), ("inflight", False), ("inflight", True))]
+        out += [dict(wf=wf, backend=be, init="inflight", started=True) for wf in ("chain", "fork") for be in ("slurm", "sge", "lsf")]
+        out += [dict(wf="diamond", backend="slurm", init="inflight", accounting=False)]
     return out
 
 
@@ -268,6 +323,8 @@ def run(ctx):
     sc = scenarios(ctx.tier == "quick")
     ctx.pmap(me, "faults_batch", sc, chunk=1)
     ctx.pmap(me, "crash_batch", sc, chunk=1)
+    if ctx.tier != "quick":
+        ctx.pmap(me, "faults2_batch", sc, chunk=1)
     ctx.pmap(me, "local_batch", [dict(wf=wf, backend="local", init=init) for wf in ("chain", "fork") for init in ("fresh", "inflight")], chunk=1)
     ctx.rule = ("case = (scenario, interaction index, fault kind) or (scenario, crash point: before/after a scheduler command, open/write/close of a state file); "
                 "each followed by `gwf status` and `gwf run` on the resulting state")
@@ -285,6 +342,10 @@ def replay(case):
         local_batch(a2, [meta])
         keys = ("kind", "fault", "event", "phase", "idx")
         return [v for v in a2.violations if all(v["case"].get(k) == case.get(k) for k in keys if k in case)]
+    if case["kind"] == "fault2":
+        a2 = Acc()
+        faults2_batch(a2, [meta])
+        return [v for v in a2.violations if v["case"].get("first") == case.get("first") and v["case"].get("idx") == case.get("idx") and v["case"].get("fault") == case.get("fault")]
     if case["kind"] == "fault":
         a2 = Acc()
         faults_batch(a2, [meta])
